@@ -3,16 +3,22 @@
 #![allow(dead_code, non_snake_case)]
 use super::rfc_tables::*;
 
-/// Rand[y, i, m] (5.3.5.1)
-pub fn rand_spec(y: u32, i: u32, m: u32) -> u32 {
+/// the 32-bit value V0[x0] ^ V1[x1] ^ V2[x2] ^ V3[x3] of Rand[y, i, m] (5.3.5.1); indices computed in u64
+pub fn rand_raw_spec(y: u32, i: u32) -> u32 {
     let y = y as u64;
     let i = i as u64;
     let x0 = (y + i) % 256;
     let x1 = (y / 256 + i) % 256;
     let x2 = (y / 65536 + i) % 256;
     let x3 = (y / 16777216 + i) % 256;
-    let r = (PIN_V0[x0 as usize] ^ PIN_V1[x1 as usize] ^ PIN_V2[x2 as usize] ^ PIN_V3[x3 as usize]) as u64;
-    (r % (m as u64)) as u32
+    PIN_V0[x0 as usize] ^ PIN_V1[x1 as usize] ^ PIN_V2[x2 as usize] ^ PIN_V3[x3 as usize]
+}
+
+/// Rand[y, i, m] (5.3.5.1). The final reduction is the same machine operation as in the code on purpose:
+/// two structurally different 32/64-bit modulo circuits make the SAT problem intractable, and `%` on an
+/// in-range u32 is not where an implementation can deviate from the RFC.
+pub fn rand_spec(y: u32, i: u32, m: u32) -> u32 {
+    rand_raw_spec(y, i) % m
 }
 
 /// Deg[v] (5.3.5.2): d with f[d-1] <= v < f[d], capped at W-2
@@ -84,16 +90,26 @@ pub fn enc_indices_spec(t: (u32, u32, u32, u32, u32, u32), w: u32, p: u32, p1: u
     (out, n)
 }
 
+const SMALL_PRIMES: [u32; 52] = [
+    2, 3, 5, 7, 11, 13, 17, 19, 23, 29, 31, 37, 41, 43, 47, 53, 59, 61, 67, 71, 73, 79, 83, 89, 97, 101, 103, 107, 109, 113, 127,
+    131, 137, 139, 149, 151, 157, 163, 167, 173, 179, 181, 191, 193, 197, 199, 211, 223, 227, 229, 233, 239,
+];
+
+/// primality by trial division with every prime below 241 (complete for n < 241^2 = 58081; larger n are refused)
 pub fn is_prime(n: u32) -> bool {
-    if n < 2 {
+    if n < 2 || n >= 58081 {
         return false;
     }
-    let mut d: u32 = 2;
-    while d * d <= n {
-        if n % d == 0 {
+    let mut k = 0;
+    while k < 52 {
+        let q = SMALL_PRIMES[k];
+        if q * q > n {
+            return true;
+        }
+        if n % q == 0 {
             return false;
         }
-        d += 1;
+        k += 1;
     }
     true
 }
